@@ -180,6 +180,11 @@ func genScenario(t *rapid.T) c20Scenario {
 	sc.base = hx.TempDir("c20base")
 	if rapid.IntRange(0, 2).Draw(t, "kv") == 0 {
 		sc.kind = "kv"
+		if rapid.IntRange(0, 4).Draw(t, "first_start") == 2 {
+			// the very first start: the storage directory is empty and the manager writes the initial file
+			sc.op, sc.target = "kv-init", "client.json"
+			return sc
+		}
 		c := kvstorage.NewConfig()
 		c.StorageDir = sc.base
 		c.EnableStorageAPI = true
@@ -254,6 +259,8 @@ func TestC20_CrashDuringSave(t *testing.T) {
 		var err error
 		if sc.kind == "wallet" {
 			sc.oldW, err = walletsOf(sc.base)
+		} else if sc.op == "kv-init" {
+			sc.oldKV = map[string]string{} // nothing stored yet (looking would create the file)
 		} else {
 			sc.oldKV, err = kvOf(sc.base)
 		}
@@ -323,6 +330,29 @@ func TestC20_CrashDuringSave(t *testing.T) {
 				if !mapsEqual(got, sc.oldKV) && !mapsEqual(got, sc.newKV) {
 					t.Fatalf("after a crash %s of %s the storage holds %v, neither the old %v nor the new %v\n syscalls: %s", what, sc.op, got, sc.oldKV, sc.newKV, describePlan(plan))
 				}
+			}
+			// the interrupted operation is done again on the recovered directory (what a user does after the restart):
+			// whatever the crash left beside the file must not stand in its way
+			if sc.op != "wallet-create" || sc.kind == "kv" {
+				retry := hx.TempDir("c20retry")
+				copyDir(t, dir, retry)
+				out, rerr := exec.Command(helper, append([]string{sc.op, retry}, sc.args...)...).CombinedOutput()
+				already := strings.Contains(string(out), "already") || strings.Contains(string(out), "encrypted") || strings.Contains(string(out), "exist")
+				if rerr != nil && !(already && sc.kind == "wallet") {
+					t.Fatalf("after a crash %s of %s, doing the operation again on the recovered directory fails: %v %s\n files: %v\n syscalls: %s", what, sc.op, rerr, out, listDir(retry), describePlan(plan))
+				}
+				if rerr == nil {
+					if sc.kind == "wallet" {
+						// (compared only for the label change: encryption draws a fresh nonce and new addresses may add up)
+						if got, err := walletsOf(retry); err != nil || (sc.op == "wallet-label" && got[sc.target] != sc.newW[sc.target]) {
+							t.Fatalf("after a crash %s of %s and a repeated operation the wallet is not in the new state (err=%v)", what, sc.op, err)
+						}
+					} else if got, err := kvOf(retry); err != nil || !mapsEqual(got, sc.newKV) {
+						t.Fatalf("after a crash %s of %s and a repeated operation the storage holds %v, want %v (err=%v)", what, sc.op, got, sc.newKV, err)
+					}
+					r.Count("operation_repeated_after_crash")
+				}
+				os.RemoveAll(retry)
 			}
 			r.Count("crash_states")
 			r.CaseS(touched, fmt.Sprintf("%s/%v/%s/%s", sc.op, sc.args, what, describePlan(plan)))
@@ -444,3 +474,12 @@ func describePlan(p []scEntry) string {
 
 var _ = json.Marshal
 var _ = sort.Strings
+
+func listDir(dir string) []string {
+	var out []string
+	fs, _ := os.ReadDir(dir)
+	for _, f := range fs {
+		out = append(out, f.Name())
+	}
+	return out
+}
